@@ -93,6 +93,11 @@ let describe_big pm (e : iexpr) (idx : z list) : Sx.t =
 
 let handle (req : Sx.t) : Sx.t =
   match req with
+  | L [A "big_str"; pm; pt; s; idx] ->
+    let pm = bool_of_sx pm and pt = bool_of_sx pt in
+    (match from_str pm pt classify (str_of_sx s) with
+     | Ok e -> L [A "ok"; describe_big pm e (list_of_sx zb_of_sx idx)]
+     | Raise x -> L [A "raise"; A (exn_name x)])
   | L [A "big"; pm; pt; toks; idx] ->
     let pm = bool_of_sx pm and pt = bool_of_sx pt in
     (match parse_tokens pm pt (list_of_sx tok_of_sxb toks) with
